@@ -263,6 +263,20 @@ reg("C19", "fault_enumeration",
     "DESIGN.md section 3, C19")
 
 
+reg("C20", "fault_enumeration",
+    "Fault enumeration and fuzzing of the three datagram entry paths (response, discovery reply, trap listener): for base datagrams "
+    "produced by the reference agent (v2c / SNMPv3 noAuth, auth, authPriv in quick; 18 bases incl. v1, error responses, Reports, a "
+    "1.2 KiB response and a large trap in thorough) EVERY single-bit flip, EVERY truncation and EVERY value 0..255 at EVERY TLV header "
+    "octet is delivered through the real client or listener -- for authenticated / encrypted messages also applied to the plaintext "
+    "PDU before the agent encrypts and signs it, so that parsing continues after authentication -- plus Hypothesis-generated random "
+    "bytes and TLV trees with lying lengths (indefinite, 2^31, 8-octet, reserved 0xFF, off by n) and nesting depth up to 5000; the "
+    "thorough tier adds coverage-guided atheris campaigns. Oracle per delivery: CPU time <= 2 s + 100 us x len, resident-set growth "
+    "<= 48 MiB + 1 KiB x len (RLIMIT_AS 3 GiB as backstop), and the SAME client / listener then completes a valid exchange correctly.",
+    "The x690 indefinite-length defect is excluded at its root cause by a counted guard so that the search continues behind it; it is re-demonstrated without the guard from known/C20-x690-indefinite.json in a child process on every run. Budgets are stated constants, not a proof of linearity.",
+    "exhaustive mutation enumeration (bit flips, truncations, header-octet substitutions) + Hypothesis TLV-tree generation + coverage-guided fuzzing (atheris) with resource and follow-up oracles",
+    "DESIGN.md section 3, C20")
+
+
 def main():
     present = sorted(os.path.basename(p)[:3].upper()
                      for p in glob.glob(os.path.join(VERIF, "checks", "c[0-9][0-9]_*.py")))
